@@ -208,8 +208,6 @@ func init() {
 
 func init() {
 	addMutants(
-		Mutant{"C10", "c10-inputsortdir-any-key", "compiler/optimizer/optimizer.go", "Optimizer.propagateSortKeyOp",
-			"for _, k := range op.Keys[:min(1, len(op.Keys))] {", "for _, k := range op.Keys {", "C10-I1", "sets InputSortDir"},
 		Mutant{"C19", "c19-dot-segments-unescaped", "api/client/connection.go", "urlPath",
 			"case \".\", \"..\":", "case \"\\x00.\":", "C19-K8", "dot segments"},
 		Mutant{"C11", "c11-surrogate-check-at-start", "zson/lexer.go", "parseStringBytes",
@@ -245,8 +243,6 @@ func init() {
 
 func init() {
 	addMutants(
-		Mutant{"C02", "c02-duplicate-field-first-wins", "zson/parser-values.go", "Parser.matchFields",
-			"\t\tif i, ok := seen[field.Name]; ok {\n\t\t\tfields[i] = *field\n\t\t} else {", "\t\tif _, ok := seen[field.Name]; ok {\n\t\t} else {", "C02-J1", "repeated field name"},
 		Mutant{"C02", "c02-decorated-set-as-array", "zson/analyzer.go", "Analyzer.convertSet",
 			"\t\treturn &Set{\n\t\t\tType:     cast,", "\t\treturn &Array{\n\t\t\tType:     cast,", "C02-S3", "convertSet returns"},
 		Mutant{"C11", "c11-validate-skips-sets", "value.go", "Value.Validate",
